@@ -189,6 +189,18 @@ class Bindings:
         if k in ('ref', 'await', 'try', 'cast') or (k == 'unary' and e.get('op') == 'Deref'):
             # `?` and `.await` unwrap: a projection through Ok/Some is consumed by `?`
             return self.project(e['e'], proj, depth + 1)
+        if k == 'block' and p0.startswith('#_'):
+            # tokio::select!: `let output = { let futures_init = (fut0, fut1, ..); poll_fn(..).await }; match output { _N(x) => .. }`
+            fi = [s for s in e['stmts'] if s.get('k') == 'let' and s['pat'].get('name') == 'futures_init' and
+                  any('select' in m for m in (s.get('x') or [])) and (s.get('init') or {}).get('k') == 'tuple']
+            idx = p0[2:].split('.')[0]
+            if fi and idx.isdigit() and int(idx) < len(fi[0]['init']['elems']):
+                fut = fi[0]['init']['elems'][int(idx)]
+                if fut.get('k') == 'call' and fut['args']:
+                    src = {f'{short(callee(fut))}:{o}' for o in self.origins(fut['args'][0], depth + 1)}
+                else:
+                    src = self.origins(fut, depth + 1)
+                return {f'select({o})' + ''.join(proj[1:]) for o in src}
         if k == 'block' and 'tail' in e:
             return self.project(e['tail'], proj, depth + 1)
         if k == 'tuple' and p0.startswith('[') and p0[1:-1].isdigit() and int(p0[1:-1]) < len(e['elems']):
